@@ -116,8 +116,13 @@ CLAIMS = {
              "universal domain and a condition whose disjunctions mention the same variables on both sides, the rows are exactly the "
              "projections of the assignments f with c(f, u) true for EVERY u (true_output_total, sols_mem, denote_congr by "
              "induction). The unrestricted statement is false of the code: c10_nonuniform_witness (by decide) = known finding "
-             "C10-F1. Correspondence: c mentioning universal+free / only free / only universal variables, outer conjunct, caching.",
-        note=BASE_NOTE + "The outer-conjunct form and caching are covered by correspondence (cache: findings C05-F1, C05-F3).",
+             "C10-F1. c10_and_chain_partial: 'combined with other conditions by and_' - for a chain of conjuncts (ordinary "
+             "conditions and for_alls, any order, several for_alls over one universal variable) the rows are exactly the "
+             "assignments satisfying every conjunct, each for_all's condition for EVERY universal value (induction over the chain, "
+             "soundness/completeness invariant stages_inv). Correspondence: c mentioning universal+free / only free / only "
+             "universal variables, outer conjunct before or after, two for_alls, nested for_alls, caching.",
+        note=BASE_NOTE + "Nested for_alls (model evalForAllN), a conjunct mentioning a universal variable free, and caching are "
+             "covered by correspondence only (cache: findings C05-F1, C05-F3).",
         tech="Lean 4 proof (induction on the condition; intersection invariant over the universal values) + differential correspondence"),
     'C13': dict(
         text="Transliteration of update_domain_and_kwargs_from_args / properties_to_expression_tree / symbolic_new: "
